@@ -255,7 +255,7 @@ void Default_DissectBit(char* pDest, size_t DestSize, LargeWord BitSpec) {
 }
 
 static char* GetString(void) {
-    return (char*)malloc(STRINGSIZE * sizeof(char));
+    return (char*)calloc(STRINGSIZE, sizeof(char));
 }
 
 int SetMaxCodeLen(LongWord NewMaxCodeLen) {
